@@ -4,6 +4,7 @@ import (
 	"fmt"
 	"go/types"
 	"math/big"
+	"time"
 	"strings"
 
 	"golang.org/x/tools/go/ssa"
@@ -243,13 +244,30 @@ func registerTime(e *Engine) {
 		return in.timeStr("time.Format", args[0].(TimeV))
 	})
 	reg("(time.Duration).String", func(in *Interp, _ *frame, _ *ssa.Function, args []Value, _ tokenPos) Value {
-		return in.ufStr("Duration.String", 1, 24, in.isCleanByte, nil, []*Term{args[0].(Sc).T})
+		d := args[0].(Sc).T
+		if d.IsConst() {
+			return in.str.Const(time.Duration(int64(d.val)).String())
+		}
+		res := in.ufStr("Duration.String", 1, 24, in.isCleanByte, nil, []*Term{d})
+		in.regInverse(res, invRec{kind: "dur", t: d})
+		return res
 	})
 	reg("(time.Duration).Seconds", func(in *Interp, _ *frame, _ *ssa.Function, args []Value, _ tokenPos) Value {
 		return Sc{in.uf("Duration.Seconds", 64, args[0].(Sc).T)}
 	})
 	reg("time.ParseDuration", func(in *Interp, _ *frame, _ *ssa.Function, args []Value, _ tokenPos) Value {
 		s := args[0].(*Str)
+		if c, isC := s.Concrete(); isC {
+			d, err := time.ParseDuration(c)
+			if err != nil {
+				return TupleV{E: []Value{Sc{in.b.BV(0, 64)}, in.newError(in.str.Const(err.Error()))}}
+			}
+			return TupleV{E: []Value{Sc{in.b.BV(uint64(d), 64)}, IfaceV{}}}
+		}
+		if r, found := in.lookupInverse(s, "dur"); found {
+			// ParseDuration(Duration.String(d)) == d
+			return TupleV{E: []Value{Sc{r.t}, IfaceV{}}}
+		}
 		keys := in.strTerms(s)
 		ok := in.uf("ParseDuration.ok", 0, keys...)
 		if in.branch(ok) {
